@@ -126,6 +126,9 @@ def filter_property(prop, tier, seed, replay=None):
                 viol = ('the same text was %s on one submission and %s on the next (FilterFunctionFromQuery %s, BuildFilter %s, FilterFunctionFromQuery again %s)'
                         % ('rejected' if 'B' in (a['verdicts'], a['search'], a['again']) else 'answered one way', 'accepted' if 'B' in (a['verdicts'], a['search'], a['again']) else 'another',
                            a['verdicts'], a['search'], a['again']))
+            if viol is None and a['history'] != 'same':
+                viol = ('one built filter gave different answers for the same documents before and after it was applied to documents it cannot evaluate: %s' % a['history']
+                        if a['history'] != 'P' else 'applying a built filter to unevaluable documents panicked')
             if viol is None and prop == 'C14':
                 if a['tokens'] is None or 'PANIC' in a['ast'] or 'P' in a['verdicts'] or 'P' in a['search']:
                     viol = 'building or applying the filter panicked'
